@@ -860,6 +860,13 @@ func (c *wsConn) handleWsConn(ctx context.Context) {
 			action = "read-error"
 			vhook("main.readerror", c)
 
+			// the connection is unusable, like on the failed-read path: requests
+			// accepted until the redial completes must fail fast instead of
+			// being registered and written to the dead socket
+			c.errLk.Lock()
+			c.incomingErr = rerr
+			c.errLk.Unlock()
+
 			log.Debugw("websocket error", "error", rerr, "lastAction", action, "time", time.Since(start))
 			if !c.tryReconnect(ctx) {
 				return // failed to reconnect
